@@ -73,6 +73,43 @@ type lifeLine struct {
 	ReachedSelected bool  `json:"reached_selected"` // with a well-behaved, reachable peer the open connection got (back) to Selected
 	JitterMs     int      `json:"max_jitter_ms"`
 	Fault        string   `json:"fault"`
+	trace        *lifeTrace
+}
+
+// lifeEv is one entry of the scenario-wide event log (one mutex, one total order) used for trace validation against
+// impl/Connection: API calls and returns, the library's Start attempts as seen by the harness-owned net, and what the
+// peer does (logged BEFORE the peer acts, so the log never runs behind the library).
+type lifeEv struct {
+	K   string `json:"k"` // call | ret | start-ok | start-fail | selected | peerdrop
+	G   int    `json:"g"`
+	C   string `json:"c"` // caller name for the model ("c0", "c1", ...)
+	Op  string `json:"op"`
+	Res string `json:"res"`
+}
+
+type lifeLog struct {
+	mu     sync.Mutex
+	evs    []lifeEv
+	frozen bool
+}
+
+func (l *lifeLog) add(e lifeEv) {
+	if l == nil {
+		return
+	}
+	l.mu.Lock()
+	if !l.frozen {
+		e.C = fmt.Sprintf("c%d", e.G)
+		l.evs = append(l.evs, e)
+	}
+	l.mu.Unlock()
+}
+
+type lifeTrace struct {
+	T      string   `json:"t"` // "lifetrace"
+	ID     int      `json:"id"`
+	Role   string   `json:"role"`
+	Events []lifeEv `json:"events"`
 }
 
 func lifeErr(err error) string {
@@ -134,6 +171,7 @@ type peerBot struct {
 	wellBehaved atomic.Bool // when set: always connect, select and keep the session
 	wellSession atomic.Bool // a well-behaved session is established and being held
 	cur   atomic.Pointer[peerkit.PeerConn]
+	log   *lifeLog
 }
 
 func (b *peerBot) run() {
@@ -142,6 +180,7 @@ func (b *peerBot) run() {
 		select {
 		case <-b.stop:
 			if p := b.cur.Load(); p != nil {
+				b.log.add(lifeEv{K: "peerdrop"})
 				p.Close()
 			}
 			return
@@ -166,8 +205,10 @@ func (b *peerBot) run() {
 		sel := mood != 4 // mood 4: connect but never select (stall)
 		if sel {
 			if b.cut.Passive {
+				b.log.add(lifeEv{K: "selected"})
 				p.Send(peerkit.Ctl(peerkit.STSelectReq, 0x0102, b.r.Uint32()|1))
 			} else if f, ok := p.Next(100 * time.Millisecond); ok && f.ST == peerkit.STSelectReq {
+				b.log.add(lifeEv{K: "selected"})
 				p.Send(peerkit.CtlStatus(peerkit.STSelectRsp, f.Sid, 0, f.SbU32()))
 			}
 		}
@@ -181,6 +222,7 @@ func (b *peerBot) run() {
 		for time.Now().Before(deadline) {
 			select {
 			case <-b.stop:
+				b.log.add(lifeEv{K: "peerdrop"})
 				p.Close()
 				return
 			default:
@@ -202,6 +244,7 @@ func (b *peerBot) run() {
 			}
 		}
 		b.wellSession.Store(false)
+		b.log.add(lifeEv{K: "peerdrop"})
 		switch mood {
 		case 1, 4:
 			p.Reset()
@@ -230,7 +273,9 @@ func lifeScenario(id int, seed int64) *lifeLine {
 		defer pl.Close()
 		cut.Net.SetTarget(pl.Addr())
 	}
-	bot := &peerBot{cut: cut, pl: pl, r: rand.New(rand.NewSource(seed + 7)), stop: make(chan struct{}), done: make(chan struct{})}
+	log := &lifeLog{}
+	cut.Net.Trace = func(ev string) { log.add(lifeEv{K: ev}) }
+	bot := &peerBot{cut: cut, pl: pl, r: rand.New(rand.NewSource(seed + 7)), stop: make(chan struct{}), done: make(chan struct{}), log: log}
 	go bot.run()
 	// jitter monitor
 	stopJ := make(chan struct{})
@@ -256,6 +301,10 @@ func lifeScenario(id int, seed int64) *lifeLine {
 		op := lifeOp{G: g, Op: name}
 		done := make(chan struct{})
 		t0 := time.Now()
+		traced := name == "Open(bg)" || name == "Open(wait)" || name == "Close"
+		if traced {
+			log.add(lifeEv{K: "call", G: g, Op: name})
+		}
 		go func() {
 			defer close(done)
 			defer func() {
@@ -270,6 +319,9 @@ func lifeScenario(id int, seed int64) *lifeLine {
 		case <-time.After(6 * time.Second):
 			op.Hung = true
 			op.Res = "hung"
+		}
+		if traced {
+			log.add(lifeEv{K: "ret", G: g, Op: name, Res: op.Res})
 		}
 		op.Ms = int(time.Since(t0) / time.Millisecond)
 		mu.Lock()
@@ -314,6 +366,11 @@ func lifeScenario(id int, seed int64) *lifeLine {
 		}(g, rand.New(rand.NewSource(seed*31+int64(g))))
 	}
 	wg.Wait()
+	// the event log for trace validation covers the concurrent phase only
+	log.mu.Lock()
+	line.trace = &lifeTrace{T: "lifetrace", ID: id, Role: line.Role, Events: append([]lifeEv{}, log.evs...)}
+	log.frozen = true
+	log.mu.Unlock()
 	// ---- quiescent open point: Open while open must be refused without side effects
 	bot.wellBehaved.Store(true)
 	doOp(9, "Open(bg)", func() error { return c.Open(context.Background(), hsms.OpenBackground) })
@@ -570,11 +627,20 @@ func runLife(args []string) int {
 	n := fs.Int("n", 10, "scenarios (run one after the other: the goroutine audit is process-wide)")
 	seed := fs.Int64("seed", 1, "PRNG seed")
 	out := fs.String("out", "", "observation file")
+	traces := fs.String("traces", "", "optional file for the event traces of the random histories (trace validation against impl/Connection)")
 	fs.Parse(args)
 	w, err := rec.Create(*out)
 	if err != nil {
 		fmt.Fprintln(os.Stderr, err)
 		return 2
+	}
+	var tw *rec.Writer
+	if *traces != "" {
+		if tw, err = rec.Create(*traces); err != nil {
+			fmt.Fprintln(os.Stderr, err)
+			return 2
+		}
+		defer tw.Close()
 	}
 	faults := 0
 	for k, d := range []time.Duration{0, 2 * time.Millisecond, 30 * time.Millisecond} {
@@ -588,6 +654,9 @@ func runLife(args []string) int {
 		line := lifeScenario(i+1, *seed*1000+int64(i))
 		if line.Fault != "" {
 			faults++
+		}
+		if tw != nil && line.trace != nil && line.Fault == "" {
+			tw.Emit(line.trace)
 		}
 		w.Emit(line)
 	}
